@@ -341,6 +341,38 @@ def h_misc(cfg):
                 fail('c05.mixed-environments-refused', 'no ValueError')
             except ValueError:
                 cover('mixed-refused')
+    elif cfg['what'] == 'mixfail':
+        # a refused mix leaves nothing behind: the own-environment operand fails later, its waiter handles it, the run goes on
+        a = env.event()
+        b = other.timeout(sym_num('d1', 'int', 0))
+        seen = []
+
+        def catcher():
+            try:
+                yield a
+            except Boom:
+                seen.append(env.now)
+
+        def failer():
+            yield env.timeout(sym_num('d0', 'int', 0))
+            for mk in (lambda: a & b, lambda: AllOf(env, [a, b]), lambda: AnyOf(env, [a, b])):
+                try:
+                    mk()
+                    fail('c05.mixed-environments-refused', 'no ValueError')
+                except ValueError:
+                    cover('mixed-refused')
+            yield env.timeout(sym_num('d2', 'int', 0))
+            a.fail(Boom(1))
+
+        env.process(catcher())
+        env.process(failer())
+        try:
+            env.run()
+        except Exception as ex:  # noqa
+            fail('c05.refused-mix-leaves-nothing-behind', '%s: %s' % (type(ex).__name__, ex))
+            return
+        check('c05.refused-mix-leaves-nothing-behind', len(seen) == 1)
+        cover('mix-then-failure')
     else:
         tc = sym_num('tc', 'real', 0)
         res = {}
@@ -473,6 +505,7 @@ def jobs(tier, seed):
             js.append({'harness': 'cond', 'cfg': {'tree': tr, 'sorts': ('real', 'mixed', 'int')[ti % 3], 'poll': True},
                        'weight': 5 ** str(tr).count("'T'") * 3})
     js.append({'harness': 'misc', 'cfg': {'what': 'mix'}})
+    js.append({'harness': 'misc', 'cfg': {'what': 'mixfail'}})
     js.append({'harness': 'misc', 'cfg': {'what': 'empty'}})
     return js
 
@@ -484,7 +517,7 @@ META = {
                         'c05.waiter-instant', 'c05.value-keys-in-operand-order', 'c05.value-maps-leaf-to-its-value',
                         'c05.waiter-gets-operand-exception', 'c05.unhandled-late-failure-raises', 'c05.empty-immediate'],
     'required_covers': ['failed-operand-processed-at-construction', 'nontrivial', 'met-at-construction', 'partial-value', 'failed-before-met', 'late-failure-crash',
-                        'mixed-refused', 'empty', 'shared-operand'],
+                        'mixed-refused', 'empty', 'shared-operand', 'mix-then-failure'],
     'bounds': {'quick': '20 condition trees (AllOf, AnyOf, &, |; depth <= 2, <= 3 leaves) over timeouts, shared events succeeded or '
                         'failed by helpers, child processes, one event in several operand slots; construction instant, completion instants and values symbolic',
                'thorough': 'these plus 25 fixed and 40 seed-generated trees, depth <= 3, <= 5 operand slots'},
